@@ -358,7 +358,18 @@ def run_iform(case):
         np.random.seed(case_seed(case, 2))   # a different global RNG state must not matter when random_state is set
         _, t2, _ = build(name, pf, rs)
         c2 = IFORMContour(t2, alpha, n_points=npts)
+        # the SAME seeded instance used again (a second contour, after other seeded queries): same numbers
+        q1 = np.asarray(t.marginal_icdf(np.array([0.5, 0.9]), 1), dtype=float)
+        c1b = IFORMContour(t, alpha, n_points=npts)
+        q2 = np.asarray(t.marginal_icdf(np.array([0.5, 0.9]), 1), dtype=float)
     X1, X2 = np.asarray(c1.coordinates, dtype=float), np.asarray(c2.coordinates, dtype=float)
+    X1b = np.asarray(c1b.coordinates, dtype=float)
+    if X1b.shape != X1.shape or not np.array_equal(X1, X1b):
+        bad("not_reproducible_on_reused_instance", {"what": "second IFORMContour on the same TransformedModel", "random_state": rs,
+                                                    "max_abs_difference": float(np.max(np.abs(X1 - X1b))) if X1b.shape == X1.shape else None})
+    if not np.array_equal(q1, q2):
+        bad("not_reproducible_on_reused_instance", {"what": "marginal_icdf twice on the same TransformedModel", "first": q1, "second": q2,
+                                                    "random_state": rs})
     if X1.shape != (npts, 2):
         bad("shape", {"shape": list(X1.shape)})
         return {"viol": viol, "n": 2, "nontrivial": 2}
